@@ -242,6 +242,9 @@ def faultItems (kind : String) (k : Nat) : List Acc.Item × Bool :=   -- (what t
   | "stall_midframe" => ([], true)
   | "reset" => ([.req (910000 + k), .close], true)
   | "panic" => ([.boom (920000 + k)], true)
+  | "garbage_close" => ([.bad, .close], true)
+  | "hello_close" => ([.bad, .close], true)
+  | "plain_req_close" => ([.req (930000 + k), .close], true)
   | _ => ([], true)
 
 def lsnLine (toks : List String) : String :=
@@ -255,7 +258,9 @@ def lsnLine (toks : List String) : String :=
   -- connections: 0..good-1 well behaved, good..good+nf-1 faulty, good+nf the late one
   let conns : List (Nat × List Acc.Item × Bool) :=
     ((List.range good).map fun c => (c, (List.range reqs).map (fun i => Acc.Item.req (c * 1000 + i)), true)) ++
-    ((List.range nf).map fun k => (good + k, (faultItems kind k).1, (faultItems kind k).2)) ++
+    ((List.range nf).map fun k => (good + k, (faultItems kind k).1,
+        -- what is no TLS handshake never completes one on a TLS listener
+        (faultItems kind k).2 && !(tls && (kind == "garbage_close" || kind == "hello_close" || kind == "plain_req_close")))) ++
     [(good + nf, [.req 770000, .req 770001], true)]
   let stepOr (s : Acc.St) (l : Acc.Label) : Acc.St := (Acc.step cfg s l).getD s
   let s := conns.foldl (fun s (c, _, _) => stepOr s (.arrive c)) ({} : Acc.St)
